@@ -452,6 +452,7 @@ func (r *replicator) waitForProcessSlot(ctx context.Context, e processItem) erro
 	if err := r.sem.Acquire(ctx, 1); err != nil {
 		return fmt.Errorf("failed to acquire process slot: %w", err)
 	}
+	verifhook.Point("repl.after-slot", r, ctx)
 	r.muProcess.Lock()
 
 	r.taskInProgress++
